@@ -365,6 +365,18 @@ class _GenerateChildren:
         n = I.n
         if out.returned:
             v = out.value
+            if isinstance(v, Ref) and isinstance(c.deref(v), HList) and isinstance(I.a, int):
+                # concrete replay: element by element against the spec
+                items = c.deref(v).items
+                yield "ensures.row_count", len(items) == max(0, I.b - I.a)
+                for off, child in enumerate(items[:6]):
+                    j = I.a + off
+                    if self.private:
+                        bad, k, cc, levels = spec_derive_prv(n.k, n.cc, [j])
+                    else:
+                        bad, key, pt, cc, levels = spec_derive_pub(n.key, n.pt, n.cc, [j])
+                    yield from node_chain_clauses(c, child, n.ref, levels, [j], self.private, n.testnet, n.depth)
+                return
             if isinstance(v, Ref) and isinstance(c.deref(v), HList):
                 yield "ensures.empty_only_for_empty_interval", land(c.deref(v).base is None, len(c.deref(v).items) == 0, I.a >= I.b)
                 return
